@@ -215,7 +215,9 @@ def deep_candidates(tables, rng, per_sub):
             if sub == "cascade":
                 b.pop("--format", None) if rng.random() < 0.5 else None
             if sub == "tile-multi-tan" and b.get("--wcs-key", {}).get("str") not in (None, "A"):
-                b["--wcs-key"] = {"str": "A"}
+                b["--wcs-key"] = {"str": "A"}             # the input files carry the solutions " " and "A"
+            if sub == "tile-multi-tan" and b.get("--hdu-index", {}).get("int", 0) > 2:
+                b["--hdu-index"] = {"int": 2}             # ... and three image HDUs
             k = tuple(sorted((o, json.dumps(v, sort_keys=True)) for o, v in b.items()))
             if k in got:
                 continue
@@ -300,12 +302,12 @@ def make_inputs(root, tables):
             hdu = fits.PrimaryHDU(data)
             _tan_header(hdu.header, WCS_CRVAL[name], (f["w"] / 2.0, f["h"] / 2.0), (-0.002, 0.002))
             hdu.writeto(path)
-    # multi-TAN inputs: two 32 x 32 images on one tangent plane; HDU 0 and HDU 1 hold different data, key "A" is a second solution
+    # multi-TAN inputs: two 32 x 32 images on one tangent plane; HDUs 0, 1, 2 hold different data, key "A" is a second solution
     for i, name in enumerate(("f1.fits", "f2.fits")):
         path = os.path.join(root, name)
         files[name] = path
         hdus = []
-        for j in range(2):
+        for j in range(3):
             data = np.full((32, 32), 1.0 + i + 10 * j, dtype=np.float32)
             hdu = fits.PrimaryHDU(data) if j == 0 else fits.ImageHDU(data)
             _tan_header(hdu.header, (10.0, 20.0), (16.5 - 32 * i, 16.5), (-0.01, 0.01))
@@ -344,7 +346,7 @@ STUB_DEEP = {"FitsTiler", "FitsTiler.tile", "preview_wtml", "healpix_fits_file_s
 STRICT = {"cascade_images", "f16x3_to_rgb", "u8_to_rgb", "Builder.toast_base", "Builder.execute_study_tiling", "MultiTanProcessor.tile", "FitsTiler.tile",
           "preview_wtml", "Builder.set_name", "Builder.write_index_rel_wtml", "Builder.make_placeholder_thumbnail", "Builder.make_thumbnail_from_other",
           "AVM.from_image", "Builder.apply_avm_info", "Builder.apply_wcs_info", "Builder.default_tiled_study_astrometry", "PyramidIO", "PyramidIO#2",
-          "Builder.load_from_wwtl", "SimpleFitsCollection", "healpix_fits_file_sampler", "sampler", "ImageLoader.load_path"}
+          "Builder.load_from_wwtl", "SimpleFitsCollection", "healpix_fits_file_sampler", "sampler"}
 LOADER_ATTRS = ("black_to_transparent", "colorspace_processing", "crop", "psd_single_layer")
 COLL_ATTRS = ("blankval", "hdu_index", "wcs_key")
 
@@ -360,10 +362,11 @@ class Recorder(object):
         self.resolve = []
         self.image = None
         self.tiler_dir = None
+        self.stack = []
 
     def reset(self, mode):
         self.mode = mode
-        self.calls, self.order, self.objs, self.counts, self.resolve, self.image = {}, [], {}, {}, [], None
+        self.calls, self.order, self.objs, self.counts, self.resolve, self.image, self.stack = {}, [], {}, {}, [], None, []
 
     def stubbed(self, name):
         return name in (STUB_DEEP if self.mode == "deep" else STUB_SHALLOW)
@@ -464,7 +467,7 @@ def install_spies():
         return
     toasty.merge._g07_spied = True
 
-    def spy(owner, attr, name, stub=None, init=False, ret=None, flatten=None, drop_self=False, after=None):
+    def spy(owner, attr, name, stub=None, init=False, ret=None, flatten=None, drop_self=False, after=None, nested=False):
         raw = owner.__dict__[attr] if isinstance(owner, type) else getattr(owner, attr)
         is_cm = isinstance(raw, classmethod)
         orig = raw.__func__ if is_cm else raw
@@ -474,6 +477,8 @@ def install_spies():
 
         def wrapper(*a, **k):
             extra = None
+            if R.stack and not nested:        # a call the library makes for itself, not one the command line makes
+                return orig(*a, **k)
             try:
                 ba = sig.bind(*a, **k)
                 ba.apply_defaults()
@@ -500,10 +505,14 @@ def install_spies():
             label = R.record(name, args, extra)
             if init:
                 R.register(a[0], label)
-            if stub is not None and R.stubbed(name):
-                res = stub(*a, **k)
-            else:
-                res = orig(*a, **k)
+            R.stack.append(name)
+            try:
+                if stub is not None and R.stubbed(name):
+                    res = stub(*a, **k)
+                else:
+                    res = orig(*a, **k)
+            finally:
+                R.stack.pop()
             if ret is not None and res is not None:
                 R.register(res, ret if isinstance(ret, str) else label)
             if after is not None:
@@ -527,7 +536,7 @@ def install_spies():
     spy(B, "default_tiled_study_astrometry", "Builder.default_tiled_study_astrometry")
     spy(B, "load_from_wwtl", "Builder.load_from_wwtl")
     spy(B, "write_index_rel_wtml", "Builder.write_index_rel_wtml")
-    spy(toasty.study.StudyTiling, "__init__", "StudyTiling", init=True)
+    spy(toasty.study.StudyTiling, "__init__", "StudyTiling", init=True, nested=True)
     spy(toasty.merge, "cascade_images", "cascade_images", stub=lambda *a, **k: None)
     spy(toasty.transform, "f16x3_to_rgb", "f16x3_to_rgb", stub=lambda *a, **k: None, flatten=toasty.transform._do_a_transform)
     spy(toasty.transform, "u8_to_rgb", "u8_to_rgb", stub=lambda *a, **k: None, flatten=toasty.transform._do_a_transform)
@@ -564,20 +573,27 @@ def install_spies():
     L = toasty.image.ImageLoader
     cfa = L.__dict__["create_from_args"].__func__
 
+    def by_command_line():
+        return not R.stack or R.stack == ["Builder.load_from_wwtl"]
+
     def create_from_args(cls, settings):
         loader = cfa(cls, settings)
-        R.record("ImageLoader", loader_attrs(loader))
-        R.register(loader, "ImageLoader")
+        if by_command_line():
+            R.record("ImageLoader", loader_attrs(loader))
+            R.register(loader, "ImageLoader")
         return loader
     L.create_from_args = classmethod(create_from_args)
 
     def loaded(res, a, k):
-        R.image = res
-        R.register(res, "image")
+        if R.image is None:                      # the image the command line names (tiles the library reads back later are not)
+            R.image = res
+            R.register(res, "image")
     for meth in ("load_path", "load_stream"):
         orig = L.__dict__[meth]
 
         def load(self, arg, _orig=orig, _meth=meth):
+            if not by_command_line():
+                return _orig(self, arg)
             if R.label_of(self) is None:         # a loader made without create_from_args (check-avm)
                 R.record("ImageLoader", loader_attrs(self))
                 R.register(self, "ImageLoader")
@@ -669,9 +685,15 @@ def run_case(case, argv, files, dirs_for):
     from toasty import cli
     mode = case["mode"]
     R.reset(mode)
+    import signal
     before = proc_snapshot()
     out, err = io.StringIO(), io.StringIO()
     exit_code, exc = 0, None
+
+    def on_alarm(_s, _f):
+        raise TimeoutError("G07 harness: the invocation did not finish within 180 s")
+    old = signal.signal(signal.SIGALRM, on_alarm)
+    signal.alarm(180)
     try:
         with contextlib.redirect_stdout(out), contextlib.redirect_stderr(err):
             cli.entrypoint(list(argv))
@@ -681,6 +703,9 @@ def run_case(case, argv, files, dirs_for):
         if isinstance(e, KeyboardInterrupt):
             raise
         exit_code, exc = 99, "%s: %s" % (type(e).__name__, str(e)[:300])
+    finally:
+        signal.alarm(0)
+        signal.signal(signal.SIGALRM, old)
     after = proc_snapshot()
     obs = {"exit": exit_code, "exc": exc, "calls": R.calls, "order": R.order, "resolve": list(R.resolve), "stderr": err.getvalue()[-400:],
            "proc_changed": [k for k in before if before[k] != after[k]], "proc": {"loader": after["loader"], "coll": after["coll"],
@@ -692,6 +717,14 @@ def run_case(case, argv, files, dirs_for):
                         "default_format": {"str": img.default_format}}
     obs["tiler_index"] = os.path.join(R.tiler_dir, "index_rel.wtml")
     return obs
+
+
+def short_token(t):
+    if os.sep not in t:
+        return t
+    if t.startswith("-") and "=" in t:
+        return t.split("=", 1)[0] + "=" + os.path.basename(t.split("=", 1)[1])
+    return os.path.basename(t)
 
 
 def read_wtml(d):
@@ -790,6 +823,11 @@ def replay_chunk(job):
     return out
 
 
+def _warm():
+    time.sleep(0.3)
+    return os.getpid()
+
+
 def _quiet_worker():
     devnull = os.open(os.devnull, os.O_WRONLY)
     os.dup2(devnull, 1)
@@ -860,6 +898,8 @@ def compare(case, exp, obs, art, tables):
             continue
         aargs = acalls[name]
         for p, ev in sorted(eargs.items()):
+            if p == "kwargs":
+                continue                      # judged below
             ev = resolve_ref(ev, obs)
             if p not in aargs:
                 out.append(("D", "parameter-unknown", "%s has no parameter %s any more" % (name, p)))
@@ -886,8 +926,9 @@ def compare(case, exp, obs, art, tables):
                 out.append(("V", "G07:%s:loaded-image" % sub, "the loaded image has %s = %s, specified %s (loader options %s)"
                             % (k, json.dumps(obs["image"][k]), json.dumps(ev), json.dumps(acalls.get("ImageLoader"), sort_keys=True))))
     if "written" in efacts and eff["status"] == "ok":
-        if art.get("written") != {"format": "JPEG", "size": [96, 45]}:
-            out.append(("V", "G07:%s:output-file" % sub, "the output file holds %r, expected a 96 x 45 JPEG" % (art.get("written"),)))
+        w = art.get("written")
+        if not w or w["format"] != "JPEG" or w["size"][0] > 96 or w["size"][1] > 45:
+            out.append(("V", "G07:%s:output-file" % sub, "the output file holds %r, expected a JPEG thumbnail of at most 96 x 45" % (w,)))
     if deep and eff["status"] in ("ok", "raise"):
         if "resolve_parallelism" in efacts and (eff["status"] == "ok" or not stubbed_raise):
             want = efacts["resolve_parallelism"]["list"]
@@ -934,7 +975,7 @@ def run(ctx):
     t0 = time.time()
     bfs_level, bfs_foreign = (0, 1) if quick else (1, 99)
     case_level = 1 if quick else 2
-    n_random = 14 if quick else 150
+    n_random = 30 if quick else 150
     deep_per_sub = 4 if quick else 30
     n_hist_inv, maxinv = (14, 2) if quick else (22, 3)
     nworkers = 6
@@ -957,6 +998,7 @@ def run(ctx):
     # worker processes (forked before any thread exists)
     pool = cf.ProcessPoolExecutor(max_workers=nworkers, mp_context=mp.get_context("fork"), initializer=_quiet_worker)
     try:
+        set(f.result() for f in [pool.submit(_warm) for _ in range(nworkers)])
         tex = cf.ThreadPoolExecutor(max_workers=8)
         # ---- 2. the theorems over the whole space (background)
         def tlc_space(level, foreign, tag):
@@ -1005,7 +1047,7 @@ def run(ctx):
         def tlc_hist(leaky):
             nm = "MCG07Hist" + ("Leaky" if leaky else "")
             return ctx.tlc(nm, extra={nm + ".tla": tla.module(nm, ["MCCliBinding"], [invs_def])},
-                           cfg_text=cfg_text("HistSpec", case_level, 99, ["NoCarryOver", "ProcStable"], leaky=leaky, maxinv=maxinv, invs="MCInvs"),
+                           cfg_text=cfg_text("HistSpec", case_level, 99, ["NoCarryOver"] + ([] if leaky else ["ProcStable"]), leaky=leaky, maxinv=maxinv, invs="MCInvs"),
                            workers=2, timeout=3600, expect_violation=leaky, count=not leaky)
         f_hist = tex.submit(tlc_hist, False)
         f_leaky = tex.submit(tlc_hist, True)
@@ -1052,7 +1094,7 @@ def run(ctx):
             k = seen_pos.get(index, 0)
             seen_pos[index] = k + 1
             w, n = pos_in[index][min(k, len(pos_in[index]) - 1)]
-            before = [" ".join(os.path.basename(t) for t in render(cases[j], tables, dict((a, a) for a in list(files) + ["thumb-out.jpg"]),
+            before = [" ".join(short_token(t) for t in render(cases[j], tables, dict((a, a) for a in list(files) + ["thumb-out.jpg"]),
                                                                      {"outA": "outA", "outB": "outB", "pyr": "pyr"}, __import__("random").Random(1)))
                       for j in prev_by_worker.get((w, n), [])]
             ctx.count()
@@ -1066,7 +1108,7 @@ def run(ctx):
                 observations["uninterpolated_messages"].add(obs["exc"][:160])
             if obs["wall"] > observations["slowest"][0]:
                 observations["slowest"] = (obs["wall"], " ".join(argv[:3]))
-            shown = " ".join(os.path.basename(t) if os.sep in t else t for t in argv)
+            shown = " ".join(short_token(t) for t in argv)
             for sev, key, msg in compare(case, exp, obs, art, tables):
                 text = "toasty %s [%s]: %s%s" % (shown, case["mode"], msg, (" (earlier in this process: %s)" % "; ".join(before)) if before else "")
                 if sev == "V":
@@ -1127,7 +1169,7 @@ def run(ctx):
                           "explicit_histories_of_3": len(hist_runs), "by_specified_status": stats["by_status"], "by_subcommand": stats["by_sub"],
                           "slowest_invocation_s": observations["slowest"]})
     ctx.note("as_built_deviations", {
-        "default_not_library_default": "tile-multi-tan passes hdu_index=0 where the library default None means 'first HDU holding an image'; view passes wcs_key=None where SimpleFitsCollection defaults to ' '",
+        "default_not_library_default": "view passes wcs_key=None where SimpleFitsCollection defaults to ' ' (None is treated alike); until commit 4ee13a7 tile-multi-tan passed hdu_index=0 where the library default None means 'first HDU holding an image'",
         "suppressed_options": "view --browser/--appurl have no effect with --tile-only; tile-study --fits-wcs has none with --avm/--avm-from (no message)",
         "needed_option": "transform fx3-to-rgb / u8-to-rgb without --start call the library with depth None: TypeError after the parallelism was decided (cascade dies with a message)",
         "crop_ignored_for_arrays": "--crop / --black-to-transparent are accepted and unused for FITS (and .npy / .exr) inputs",
